@@ -439,6 +439,12 @@ class Mailbox:
                 except Exception as e:
                     # TODO: Should I also handle timeout errors like this?
                     self.kill_from_exception(e)
+                    # kill_from_exception re-raises everything except MailboxKilled.
+                    # A MailboxKilled thrown into this generator (divide_outputs does
+                    # that) must end it as well: going on to the next message could
+                    # hit the final StopIteration and leave throw() with a
+                    # StopIteration instead of the exception that was thrown in.
+                    raise
 
         self.log.debug("Done reading")
 
